@@ -172,7 +172,9 @@ func explore(p *pool, ls *loadSpec, o exploreOpts) *ExploreResult {
 				return
 			}
 			if !w.busy {
-				if o.MaxPaths > 0 && nextID >= o.MaxPaths || o.MaxWall > 0 && time.Since(t0) > o.MaxWall {
+				if o.MaxPaths > 0 && nextID >= o.MaxPaths || o.MaxWall > 0 && time.Since(t0) > o.MaxWall || res.ViolPaths > 4000 {
+					// (a flood of violating paths: the verdict is settled, the rest of the
+					// exploration is reported as incomplete rather than run for hours)
 					capped = true
 					return
 				}
